@@ -440,7 +440,7 @@ def rule_recurrent_loop(ctx: Ctx, out: Collector) -> None:
                                                   f'it: iterations and executions no longer correspond')
             # ---- RC-2 hand-over
             cons = base + '::hand-over of the marker data before every run'
-            stores = [g.evs[m] for m in sorted(region) if g.evs[m].kind == 'store' and g.evs[m].inst is lp.inst]
+            stores = [g.evs[m] for m in sorted(region) if g.evs[m].kind == 'store' and (g.evs[m].inst is lp.inst or _below(g.evs[m].inst, lp.inst))]
             hand = None
             for st in stores:
                 v = sym.term(ctx.p, st.info['value'], st.inst)
